@@ -97,6 +97,11 @@ STRENGTHENED = {
     "C05-B": "first run: only C10 caught it (C05/C01 silent: a random 16-bit piece is 0x1000 with probability 2^-16). gen::host now biases IPv6 pieces to digit-count boundaries (0xF/0x10/0xFF/0x100/0xFFF/0x1000/...); C05 and C01 catch it since.",
     "C07-B": "first run: C07 and C04 caught it, C01 silent (no base with a '/.//' path of two segments). Bases 'foo:/.//a/b/c' etc. added to gen::base_pool; C01 catches it since.",
     "C10-B": "first run: C10 and C04 both silent (needs a host setter fed another spelling of the host the URL already has). Added gen::respell_host (used by the shared history generator) and the C10 channels set_host-same-host / set_hostname-same-host; C10 and C04 catch it since.",
+    "C17-C": "strengthened after reading the seeding report, before the first run: an on-the-spot comparison of ada_get_components cannot see a shared snapshot, so c17 now keeps the pointer it was given for each handle and re-checks it (and its non-aliasing) after later calls.",
+    "C14-C": "strengthened before the first run: literal texts with regexp metacharacters ('|', '.', '$', '^', '[') added to the pattern generator together with near-miss inputs that replace the metacharacter.",
+    "C14-D": "strengthened before the first run: the groups of a second successful call (match after exec) on the same pattern object are now compared with those of the first.",
+    "C11-C": "strengthened before the first run: setter channels on URLs that already have the components behind the edited one (query set while a fragment exists, ...) added to the exhaustive sweep.",
+    "C05-C": "strengthened before the first run: non-canonical spellings of 'localhost' (upper case, percent-encoded, full-width) added to the file-URL generator.",
     "C14-A": "patch rebased onto the tree after fix 6929383 (same function). First run silent: no input was generated with an unparsable base argument. gen_c14 now passes unparsable / irrelevant base strings with absolute inputs; C14 catches it (test-vs-exec) since.",
 }
 
